@@ -311,6 +311,9 @@ func runCase(c *vlib.Ctx, specs []stores.MetricSpec, omitProg, emitTS bool) {
 
 func main() {
 	c := vlib.Init("exploration")
+	// the exporter hands its samples to the Prometheus registry, which reads them on goroutines of its own: a fatal
+	// error there (e.g. concurrent map access) must come out as a verdict, not as a dead harness
+	vlib.Supervise(c, "exposition check aborted by a fatal error in the exporter; see the violation")
 	names := []string{"foo", "foo-bar", "9bad", "foo-bar-baz"}
 	progs := []string{"p", "q"}
 	keyLists := [][]string{{}, {"a"}, {"a", "b"}, {"a-b"}, {"prog"}, {"le"}}
